@@ -446,6 +446,20 @@ static int add_fetch_to_state(struct element *e, struct fetch *f)
 	return add_fetch_to_state(e, f);
 }
 
+static bool add_item_checked(cJSON *object, const char *key, cJSON *item)
+{
+	if (unlikely(item == NULL)) {
+		return false;
+	}
+
+	if (unlikely(!cJSON_AddItemToObject(object, key, item))) {
+		cJSON_Delete(item);
+		return false;
+	}
+
+	return true;
+}
+
 static int notify_fetching_peer(const struct element *e, const struct fetch *f,
                                 const char *event_name)
 {
@@ -453,40 +467,34 @@ static int notify_fetching_peer(const struct element *e, const struct fetch *f,
 	if (unlikely(root == NULL)) {
 		return -1;
 	}
-	cJSON *fetch_id = cJSON_Duplicate(f->fetch_id, 1);
-	if (unlikely(fetch_id == NULL)) {
+
+	if (unlikely(!add_item_checked(root, "method", cJSON_Duplicate(f->fetch_id, 1)))) {
 		goto error;
 	}
-	cJSON_AddItemToObject(root, "method", fetch_id);
 
 	cJSON *param = cJSON_CreateObject();
-	if (unlikely(param == NULL)) {
+	if (unlikely(!add_item_checked(root, "params", param))) {
 		goto error;
 	}
-	cJSON_AddItemToObject(root, "params", param);
 
 	if (element_is_fetch_only(e)) {
-		cJSON_AddTrueToObject(param, "fetchOnly");
-	}
-
-	cJSON *path = cJSON_CreateString(e->path);
-	if (unlikely(path == NULL)) {
-		goto error;
-	}
-	cJSON_AddItemToObject(param, "path", path);
-
-	cJSON *event = cJSON_CreateString(event_name);
-	if (unlikely(event == NULL)) {
-		goto error;
-	}
-	cJSON_AddItemToObject(param, "event", event);
-
-	if (e->value != NULL) {
-		cJSON *value = cJSON_Duplicate(e->value, 1);
-		if (unlikely(value == NULL)) {
+		if (unlikely(!add_item_checked(param, "fetchOnly", cJSON_CreateTrue()))) {
 			goto error;
 		}
-		cJSON_AddItemToObject(param, "value", value);
+	}
+
+	if (unlikely(!add_item_checked(param, "path", cJSON_CreateString(e->path)))) {
+		goto error;
+	}
+
+	if (unlikely(!add_item_checked(param, "event", cJSON_CreateString(event_name)))) {
+		goto error;
+	}
+
+	if (e->value != NULL) {
+		if (unlikely(!add_item_checked(param, "value", cJSON_Duplicate(e->value, 1)))) {
+			goto error;
+		}
 	}
 
 	char *rendered_message = cJSON_PrintUnformatted(root);
